@@ -477,23 +477,24 @@ impl Connection {
                     header.sequence_id, header.fragment_id, header.fragment_id
                 );
 
-                let atom_cache_data = if header.num_atom_cache_refs > 0 {
-                    Some(remaining[..header.num_atom_cache_refs as usize].to_vec())
-                } else {
-                    None
-                };
-
-                let payload_start = if header.num_atom_cache_refs > 0 {
-                    header.num_atom_cache_refs as usize
-                } else {
-                    0
-                };
+                // After SequenceId and FragmentId the first fragment continues exactly like an
+                // unfragmented message after `131 68`: NumberOfAtomCacheRefs, the flags and the
+                // atom cache references (whose length is not the reference count), then the
+                // start of the control message. Put the two-byte prefix back so that the
+                // reassembled bytes can be decoded as a distribution-header message.
+                let mut first_fragment = Vec::with_capacity(remaining.len() + 3);
+                first_fragment.extend_from_slice(&[
+                    VERSION_TAG,
+                    DIST_HEADER,
+                    header.num_atom_cache_refs,
+                ]);
+                first_fragment.extend_from_slice(remaining);
 
                 if let Some(complete_data) = self.fragment_assembler.start_fragment(
                     header.sequence_id,
                     header.fragment_id,
-                    atom_cache_data,
-                    remaining[payload_start..].to_vec(),
+                    None,
+                    first_fragment,
                 ) {
                     trace!("Fragment sequence complete, processing");
                     return Self::decode_complete_fragment(&complete_data, &mut self.atom_cache);
